@@ -197,6 +197,7 @@ impl System {
     pub fn bad_event_batch(&mut self) -> Vec<Finding> {
         let ctx = self.fault.clone().expect("fault context");
         self.lanes[X].meter = true;
+        crate::label::set_prefix(self.codec(), &self.trail, "ev");
         let before = self.fingerprint();
         for (n, b) in ctx.ev_bad.iter().enumerate() {
             let mut f = self.bad_event_undecodable(b, &before);
@@ -249,6 +250,7 @@ impl System {
     pub fn bad_event(&mut self, b: &[u8]) -> Vec<Finding> {
         self.lanes[X].meter = true;
         let codec = self.codec();
+        crate::label::set_prefix(codec, &self.trail, "ev");
         match dec_lenient::<Event>(codec, b) {
             Err(_) => {
                 let before = self.fingerprint();
@@ -301,6 +303,7 @@ impl System {
     pub fn bad_response(&mut self, k: usize, b: &[u8]) -> Vec<Finding> {
         self.lanes[X].meter = true;
         let codec = self.codec();
+        crate::label::set_prefix(codec, &self.trail, &format!("resp{k}"));
         let (hx, ht, kind) = {
             let e = &self.out[k];
             (e.h[X], e.h[T], e.kind)
@@ -364,6 +367,7 @@ impl System {
     /// Bytes sent to the id of a notification: always `Err(Never)`, nothing else happens.
     pub fn bad_note(&mut self, j: usize, b: &[u8]) -> Vec<Finding> {
         self.lanes[X].meter = true;
+        crate::label::set_prefix(self.codec(), &self.trail, &format!("note{j}"));
         let hx = self.notes[j].h[X];
         let o = self.lanes[X].respond_bytes(hx, b);
         let mut f = self.account("answer-to-notification", b, &o.class());
